@@ -921,7 +921,7 @@ fn bytes_stream(driver: &Driver, seed: u64, thorough: bool, replay: Option<&Valu
             let c = r["case"].as_u64().unwrap_or(0);
             (c, c + 1)
         }
-        None => (0, if thorough { 6000 } else { 400 }),
+        None => (0, if thorough { 6000 } else { 300 }),
     };
     let seed = replay.and_then(|r| r["seed"].as_u64()).unwrap_or(seed);
     for case in from..to {
